@@ -2,6 +2,7 @@ package simnode
 
 import (
 	"encoding/hex"
+	"encoding/json"
 	"errors"
 	"fmt"
 	"math/big"
@@ -122,10 +123,25 @@ func parseProg(s string) ([]instr, error) {
 func RegisterVerifContract(reg contract.KernRegistry) {
 	reg.RegisterKernMethod(VerifContract, VerifMethod, runVerif)
 	reg.RegisterKernMethod(VerifContract2, VerifMethod, runVerif)
+	reg.RegisterKernMethod(VerifContract, "timer", runVerifTimer)
+}
+
+// runVerifTimer is the entry point used by $timer_task triggers: the trigger's args arrive
+// as JSON under "args"; {"prog": "..."} is run by the interpreter.
+func runVerifTimer(ctx contract.KContext) (*contract.Response, error) {
+	var a map[string]string
+	if err := json.Unmarshal(ctx.Args()["args"], &a); err != nil {
+		return nil, err
+	}
+	return runProg(ctx, a["prog"])
 }
 
 func runVerif(ctx contract.KContext) (*contract.Response, error) {
-	prog, err := parseProg(string(ctx.Args()["prog"]))
+	return runProg(ctx, string(ctx.Args()["prog"]))
+}
+
+func runProg(ctx contract.KContext, text string) (*contract.Response, error) {
+	prog, err := parseProg(text)
 	if err != nil {
 		return nil, err
 	}
